@@ -25,6 +25,82 @@ def _yields_old_len(ctx, fb, depth=0):
     return False
 
 
+def _old_table_accessors(ctx):
+    """private methods of the split table that hand out the old table itself, `Some(&old.table)` exactly when a resize is pending:
+    `match self.LEFT { Some(ref o) => Some(&o.table), None => None }` or `self.LEFT.as_ref().map(|o| &o.table)`"""
+    def build():
+        out = set()
+        T = ctx.facts.types
+        for fb in ctx.facts.bodies.values():
+            if fb.kind == "Closure" or fb.arg_count != 1 or self_s_prefix(ctx, fb) is None or fb.loops():
+                continue
+            rt = T[fb.locals[0]["ty"]]
+            if rt.get("adt") != "core::option::Option" or not rt.get("args"):
+                continue
+            inner = T[rt["args"][0]]
+            if inner.get("k") != "ref" or T[inner["inner"]].get("adt") != "hashbrown::raw::RawTable":
+                continue
+            cc = [x for x in ctx.calls(fb) if not fb.is_cleanup(x.loc.bb)]
+            if not cc:
+                # explicit match: every value that reaches the return place is None or Some(&OLD)
+                ok, somes = True, 0
+                rets = fb.ret_locals() | {0}
+                for loc, st in fb.all_assigns():
+                    if st["place"]["proj"] or st["place"]["local"] not in rets:
+                        continue
+                    rv = st["rv"]
+                    if rv["k"] == "use" and rv["op"]["k"] in ("copy", "move") and not rv["op"]["place"]["proj"] and rv["op"]["place"]["local"] in rets:
+                        continue
+                    if rv["k"] == "aggregate" and rv.get("adt") == "core::option::Option":
+                        if rv["variant"] == "None":
+                            continue
+                        q = fb.op_path(rv["ops"][0])
+                        if q is not None and ctx.role(fb, q) == OLD and is_self_s(ctx, fb, ctx.roles.s_prefix(q)):
+                            somes += 1
+                            continue
+                    ok = False
+                if ok and somes:
+                    out.add(fb.path)
+                continue
+            if len(cc) == 2 and cc[0].name in (OPT + "as_ref", OPT + "as_mut") and is_self_left(ctx, fb, cc[0].arg_path(0)) and cc[1].name == OPT + "map" \
+                    and cc[1].dest is not None and (cc[1].dest["local"] in (fb.ret_locals() | {0})) and cc[1].closure_args():
+                sd = fb.source_def(cc[1].args[0])
+                cb = cc[1].closure_args()[0]
+                if sd is None or sd[1] != "call" or sd[0] != cc[0].loc or [x for x in ctx.calls(cb) if not cb.is_cleanup(x.loc.bb)] or cb.loops():
+                    continue
+                ok, n = True, 0
+                rets = cb.ret_locals() | {0}
+                for loc, st in cb.all_assigns():
+                    if st["place"]["proj"] or st["place"]["local"] not in rets:
+                        continue
+                    rv = st["rv"]
+                    if rv["k"] == "use" and rv["op"]["k"] in ("copy", "move") and not rv["op"]["place"]["proj"] and rv["op"]["place"]["local"] in rets:
+                        continue
+                    q = None
+                    if rv["k"] == "ref":
+                        q = cb.expand(rv["place"])
+                    elif rv["k"] == "use" and rv["op"]["k"] in ("copy", "move"):
+                        q = cb.op_path(rv["op"])
+                    if q is not None and q.strip_refs().root == 2 and ctx.role(cb, q) == OLD:
+                        n += 1
+                        continue
+                    ok = False
+                if ok and n:
+                    out.add(fb.path)
+        return out
+    return ctx.memo("old_table_accessors", build)
+
+
+def _yields_len_of_param(ctx, cb):
+    """the closure does nothing but return the length of the (hashbrown) table it is handed"""
+    cc = [x for x in ctx.calls(cb) if not cb.is_cleanup(x.loc.bb)]
+    if len(cc) != 1 or cb.loops() or cc[0].tname != HBT + "len" or cc[0].dest is None or cc[0].dest["local"] not in (cb.ret_locals() | {0}):
+        return False
+    q = cc[0].arg_path(0)
+    first_param = 2 if cb.kind == "Closure" else 1
+    return q is not None and q.strip_refs().root == first_param and not q.fields()
+
+
 class PathExec:
     """Enumerate loop-free paths from the entry of `body` to a target block, evaluating size arithmetic symbolically."""
 
@@ -153,6 +229,12 @@ class PathExec:
             if from_left and cbs and args[1] == C(0):
                 cb = cbs[0]
                 if _yields_old_len(ctx, cb):
+                    return V("oz" + ver)
+            # the old table handed out by an accessor of the split table: self.old_table().map_or(0, |t| t.len())
+            if src is not None and src[1] == "call" and cbs and args[1] == C(0):
+                sc = ctx.call_at(b, src[0].bb)
+                lc = sc.local_callee()
+                if lc is not None and lc.path in _old_table_accessors(ctx) and is_self_s(ctx, b, sc.arg_path(0)) and _yields_len_of_param(ctx, cbs[0]):
                     return V("oz" + ver)
             return ("unknown", "map_or")
         if name == OPT + "map" and len(c.args) == 2 and (c.closure_args() or c.fn_value_args()):
@@ -1118,7 +1200,9 @@ def _tested_or_grown_proof(ctx, body, c, sp):
 def rule_s_room(ctx):
     R = RuleResult("S-room", "hashbrown's insert_no_grow must find a free slot (it does not check): a caller-supplied element is put into the main table with it "
                    "only on the `capacity() != len()` edge of a test of that same table (nothing touching the table in between), directly or through "
-                   "griddle's unsafe wrapper, whose every call site then carries the obligation; an advisory size hint or an earlier reserve is not accepted")
+                   "griddle's unsafe wrapper, whose every call site then carries the obligation; or every path comes over such an edge or from a growth of "
+                   "that table by a constant >= 1 (S-grow); or the insertions are the body of a loop over exactly the n elements a preceding reserve(n) "
+                   "made room for; an advisory size hint is not accepted")
     from rules_typestate import full_test_switches
     from rules_protocol import between_blocks
     mv = movers(ctx)
